@@ -12,6 +12,8 @@ from ..framework import Engine, Violation, classify
 from ..pools import Pools
 from .common import file_of, strip_ansi, fsha
 
+RULE_WORDS = ["CheckLineLen", "CheckSpacing", "CheckHeader", "CheckOperatorsSpacing", "CheckPreprocessorDefine", "IsComment", "IsFuncDeclaration",
+              "CheckGlobalNaming", "CheckLineCount", "Rule", "Check", "Primary"]
 WORDS = ["Whatever", "CheckForbiddenSourceHeader", "checkdefine", "CheckDefineX", "", "42"]
 
 
@@ -190,6 +192,11 @@ class C16(Engine):
             f = P.files[fid]
             rng = core.derive_rng("c16.word", self.seed, fi)
             word = WORDS[rng.randrange(len(WORDS))]
+            # half of the files get, as their compatibility word, the class name of a rule that emitted one of the file's own
+            # diagnostics (measured): a word that is not CheckDefine may not switch anything off, whatever it spells
+            emitters = sorted(set(rule for _, rule in (P.alone.get(fid, {}).get("who") or []) if rule and rule != "CheckPreprocessorDefine"))
+            if fi % 2 == 0:
+                word = emitters[rng.randrange(len(emitters))] if emitters else RULE_WORDS[rng.randrange(len(RULE_WORDS))]
             ref = {"nocol": 1, "fmt": "humanized", "o": 0, "dbg": 0, "R": None, "Rkind": None, "inline": 0}
             for vi, v in enumerate(vectors(word)):
                 if fid in self.depth_ids and (v["o"] or v["Rkind"] == "word" or v["fmt"] == "json" or not v["nocol"]):
